@@ -1579,7 +1579,7 @@ int main(int argc, char** argv)
   vector<vrt::Group> groups = {
     { "seed-repro", 16, 16, caseSeedRepro, 600, true },
     { "cont-sampler", 360, 9000, caseContSampler, 600, false },
-    { "dist-randC", 480, 12000, caseDistRandC, 900, false },
+    { "dist-randC", 480, 12000, caseDistRandC, 300, false },
     { "dist-rand", 400, 9000, caseDistRand, 600, false },
     { "picks", 520, 12000, casePicks, 600, false },
     { "sample-exact", 4 * 13 * 15, 4 * 13 * 15, caseSampleExact, 600, true },
